@@ -1,5 +1,6 @@
 """C06 - every dataset in a collection carries exactly one subset per subset group."""
 PROPERTY = 'C06'
+THOROUGH_SEEDS = 1      # the thorough enumeration of this driver is already minutes long
 LEVEL = 'proof'
 DEDUCTIVE = ['contracts.c06_groups']
 BUDGET_S = {'quick': 20.0, 'thorough': 60.0}
